@@ -113,6 +113,11 @@ func (m *modset) size() int {
 	return n
 }
 
+type pendingGhostCheck struct {
+	key string
+	old *smt.Term
+}
+
 type frameLoc struct {
 	key  string
 	addr *smt.Term // object/array/map address
@@ -136,6 +141,8 @@ type hctx struct {
 	frame    *frameSpec
 	hasMod   bool
 	mayPanic []*smt.Term
+	pendingGhost []pendingGhostCheck
+	retPaths []*smt.Term
 	callPos  token.Pos
 	callerFn string
 }
@@ -194,6 +201,9 @@ type Exec struct {
 	vacuityOn bool
 	objSeq map[int]int
 	specObj map[int]bool
+	lastRetPaths []*smt.Term
+	ghostNames map[string]bool
+	pendingGhost []pendingGhostCheck
 	allocSeq int
 	noSafety int
 	lastResult *smt.Term
@@ -737,4 +747,65 @@ func splitAddC(t *smt.Term) (*smt.Term, uint64) {
 		return nil, t.Val
 	}
 	return t, 0
+}
+
+// literalMap turns the top-level conjuncts of a path condition into a substitution
+// (literal -> true, negated literal -> false).
+func literalMap(path *smt.Term) map[*smt.Term]*smt.Term {
+	m := map[*smt.Term]*smt.Term{}
+	var cs []*smt.Term
+	if path.Op == "and" {
+		cs = path.Args
+	} else {
+		cs = []*smt.Term{path}
+	}
+	for _, c := range cs {
+		if c.Op == "not" {
+			m[c.Args[0]] = smt.False
+		} else if c.Op != "true" {
+			m[c] = smt.True
+		}
+	}
+	return m
+}
+
+// checkPerReturn emits one obligation per return path of the verified function: under each
+// path the merged (ite) values collapse, which keeps terms small and matchable.
+func (e *Exec) checkPerReturn(st *State, kind string, goal *smt.Term, label string, paths []*smt.Term) {
+	if st.Dead() || goal.IsTrue() || e.mute > 0 {
+		return
+	}
+	base := e.hyp(st)
+	for i, p := range paths {
+		m := literalMap(p)
+		hyp := smt.Subst(smt.And(base, p), m)
+		g := smt.Subst(goal, m)
+		// keep the path facts themselves (they were replaced by true inside)
+		hyp = smt.And(hyp, p)
+		if hyp.IsFalse() || g.IsTrue() {
+			continue
+		}
+		name := fmt.Sprintf("%s/%s:%s@ret%d", e.curFunc, kind, label, i+1)
+		o := &Obligation{Name: name, Kind: kind, Func: e.curFunc, Hyp: hyp, Goal: g,
+			Values: e.inputs, ValueNames: e.inputNames, Props: e.curProps}
+		e.Obls = append(e.Obls, o)
+	}
+	if !smt.HasQuant(goal) {
+		st.Assume(goal)
+	}
+}
+
+// assumeAllocated: every address held in a live value denotes an object allocated so far
+// (allocation ids below the current counter). Without it a pointer read from memory could
+// alias an object allocated later.
+func (e *Exec) assumeAllocated(st *State, v *smt.Term, t types.Type) {
+	if v.HasBound || st.Alloc.HasBound {
+		return
+	}
+	for _, a := range e.addrsIn(v, t) {
+		if a.Op == "ctor" {
+			continue
+		}
+		e.fact(st, v, smt.Implies(smt.Is("obj", a), smt.BVUlt(Oid(a), st.Alloc)))
+	}
 }
